@@ -28,6 +28,13 @@ def main(argv):
         UnitSpec("compat", sorted(set(t for t, _ in compat)), [(t, "libcellml::" + f) for t, f in compat], string_model="vstr", models=("exact.h",),
                  spec_header="specs/C19/spec.h", harness_file="specs/C19/harness.c", prelude="#define H_COMPAT 1"),
     ]
+    c.units += [
+        UnitSpec("link", ["utilities.cpp"], [("utilities.cpp", "libcellml::linkComponentVariableUnits"), ("utilities.cpp", "libcellml::areComponentVariableUnitsUnlinked")],
+                 string_model="sid", models=("exact.h", "sidstr.h"), spec_header="specs/C19/spec.h", harness_file="specs/C19/harness.c", prelude="#define H_LINK 1"),
+        UnitSpec("clean", ["model.cpp"], [("model.cpp", "libcellml::traverseHierarchyAndRemoveIfEmpty"), ("model.cpp", "libcellml::Model::clean")],
+                 string_model="sid", models=("exact.h", "sidstr.h"), spec_header="specs/C19/spec.h", harness_file="specs/C19/harness.c", prelude="#define H_CLEAN 1",
+                 rec_stubs=["traverseHierarchyAndRemoveIfEmpty"]),
+    ]
     D = {"HEAP_N": 10, "REF_T": "unsigned", "VVEC_CAP": 4, "MAXE": 3, "VMAP_CAP": 4}
     c.harnesses = [
         ("required", Harness("h_interfaceTypeFor", "F", defines=D, unwind=12, timeout=300, carries="(public, private) -> interface type, all four cases (complete)")),
@@ -40,13 +47,23 @@ def main(argv):
         ("compat", Harness("h_validator_compat", "B", defines=dict(D, VSTR_CAP=20), unwind=22, timeout=900, bound="interface strings <= 18 bytes, all byte values",
                            carries="an interface that suffices for the repair raises no interface issue in the validator (real strings) - BOUNDED")),
     ]
-    c.trusted_base = ["findAllVariablesWithEquivalences is a contract stub (collects the variables that have equivalences) in h_fix",
+    c.harnesses += [
+        ("link", Harness("h_link", "B", defines=dict(D, VVEC_CAP=3), unwind=6, timeout=900, bound="<= 2 variables in the component; units owned by this model, another model or none",
+                         carries="linkUnits (per component): true exactly when every variable's units are absent, standard, or can be replaced by the model's own units of "
+                                 "that name; then hasUnlinkedUnits is false; already linked variables untouched - BOUNDED")),
+        ("clean", Harness("h_clean_component", "B", defines=dict(D, VVEC_CAP=3), unwind=4, timeout=900, bound="<= 2 child components; recursion = the function's own contract",
+                          carries="clean (per component): every child is cleaned, a child is removed exactly when empty, a component is empty exactly by the documented definition - BOUNDED width, inductive in depth")),
+        ("clean", Harness("h_clean_model", "B", defines=dict(D, VVEC_CAP=3), unwind=4, timeout=900, bound="<= 2 components and <= 2 units",
+                          carries="Model::clean removes exactly the empty components and the empty units and leaves everything else untouched - BOUNDED")),
+    ]
+    c.trusted_base = ["container getters/removers, owningModel and isStandardUnit are contract stubs in h_link / h_clean_* (their obligations are C09's)",
+                      "findAllVariablesWithEquivalences is a contract stub (collects the variables that have equivalences) in h_fix",
                       "determineInterfaceType is a contract stub in h_fix (its own obligation is h_required)",
                       "canonical object ids; exact bounded models; strings as identities in h_required/h_fix, real bounded strings in h_validator_compat"]
     c.explanation = ("Obligations on C lowered from utilities.cpp (publicAndOrPrivateInterfaceTypeRequired, interfaceTypeFor, determineInterfaceType), model.cpp "
                      "(fixVariableInterfaces), variable.cpp (permitsInterfaceType, setInterfaceType) and validator.cpp (interfaceTypeIsCompatible), with "
                      "post-conditions transcribed from the property. Loops over the equivalence list / variable list are BOUNDED.")
-    c.not_covered = ["Model::linkUnits / hasUnlinkedUnits", "Model::clean", "findAllVariablesWithEquivalences' traversal"]
+    c.not_covered = ["the traversals that apply the per-component steps (traverseComponentEntityTreeLinkingUnits, findAllVariablesWithEquivalences)"]
     exe = {}
 
     def native(chk):
